@@ -172,6 +172,9 @@ def spec_init(rng, tier):
     c = call_init(rng, n)
     s = common(rng, n, tier)
     s.update(c, n=n, family=fam, labels=LABEL_FAMILIES[fam](n))
+    # max_hye_size is a parameter of the sampler like any other: given explicitly it may be smaller than the largest hyperedge of
+    # the initial hypergraph - the conditioning is still the whole initial hypergraph (its degrees, its sizes)
+    s["maxsize"] = rng.choice([None, None, None, 2, 3, 4])
     return s
 
 
